@@ -521,7 +521,12 @@ def replay_plan(ob):
             if 'mtu' in inp and ('frame_len' in inp or 'rest_len' in inp):
                 n = inp.get('frame_len', inp.get('rest_len'))
                 case = {'driver': 'make_fragments', 'args': {'mtu': inp['mtu'], 'frame_len': n, 'next_id': inp.get('id', inp.get('next_id', 0))}}
-                return 'fragment', case, lambda o: (not o.get('panicked')) and o.get('roundtrip_exact') is not True
+                mtu = int(inp['mtu'])
+                need = -(-int(n) // (mtu - 4)) if mtu > 4 else None
+                fits = need is not None and need <= 127
+                # a frame that fits the 7-bit fragment counter must come back exactly; one that does not must be refused outright
+                return 'fragment', case, lambda o: (not o.get('panicked')) and ((fits and int(n) > 0 and o.get('roundtrip_exact') is not True) or
+                                                                                 (not fits and o.get('fragments', 0) != 0))
         return None
     if t == 'ReassembleQueue::new' and 'total' in inp:
         return 'fragment', {'driver': 'rq_new', 'args': {'total': inp['total'], 'seq': inp['seq'], 'buf': _hx(inp['buf'])}}, panicked
